@@ -18,6 +18,7 @@ mod c17;
 mod c18;
 mod c19;
 mod c20;
+mod stdio;
 mod common;
 mod selftest;
 
@@ -75,7 +76,22 @@ fn main() {
     let tier = if std::env::var("VERIF_REPLAY_SIG").is_ok() { "quick".to_string() } else { tier };
     let code = match prop {
         "C01" => explorer(prop, &tier, replay, c01::specs(&tier), &c01::C01),
-        "C02" => explorer(prop, &tier, replay, c02::specs(&tier), &c02::C02),
+        "C02" => match replay {
+            Some(p) => common::replay_explorer(prop, &p, c02::specs(&tier), &c02::C02),
+            None => common::run_explorer_ext(
+                prop,
+                &tier,
+                c02::specs(&tier),
+                &c02::C02,
+                "explicit-state exploration of the real crate (replay-from-history BFS) against a reference model and an independent FAT decoder",
+                vec![
+                    "independent decoder implements the FAT specification correctly (anchored to Linux-made images)".into(),
+                    "library is deterministic given device, clock and call sequence (re-execution sample checked on every run)".into(),
+                ],
+                "model_checking",
+                &|rep: &mut harness::report::Report| add_stdio(rep, "C02", &tier, 0, &["std-io/semantics", "std-io/content", "std-io/panic", "std-io/unmount", "std-io/remount", "std-io/reopen", "std-io/read-back"]),
+            ),
+        },
         "C03" => explorer(prop, &tier, replay, c03::specs(&tier, prop), &c03::C03),
         "C05" => explorer(prop, &tier, replay, c05::specs(&tier), &c05::C05),
         "C06" => {
@@ -101,6 +117,8 @@ fn main() {
                         for (sig, msg, cfg) in c09::format_faults(&ctr) {
                             rep.add(common::violation("C09", &sig, &msg, &cfg), serde_json::json!({"check": "C09", "format": cfg}));
                         }
+                        // storage errors through the std::io facade keep their kind and payload
+                        add_stdio(rep, "C09", &tier, if common::is_thorough(&tier) { 3 } else { 2 }, &["std-io/storage-error", "std-io/panic"]);
                         let outcomes = ctr.outcomes.lock().unwrap().clone();
                         let o = rep.coverage.as_object_mut().unwrap();
                         o.insert("evaluations".into(), ctr.fault_points.load(Ordering::Relaxed).into());
@@ -176,6 +194,8 @@ fn main() {
                             samples.push(serde_json::json!("no sample recorded"));
                         }
                         o.insert("samples".into(), samples.into());
+                        // a flush through the std::io::Write impl of File reaches the storage as a flush
+                        add_stdio(rep, "C14", &tier, 0, &["std-io/flush-not-forwarded"]);
                     },
                 ),
             }
@@ -193,6 +213,32 @@ fn main() {
         _ => usage(),
     };
     std::process::exit(code);
+}
+
+/// the std::io facade (StdIoWrapper + the std trait impls of File) driven by its own small exhaustive explorer
+fn add_stdio(rep: &mut harness::report::Report, prop: &str, tier: &str, fault_depth: usize, keep: &[&str]) {
+    let th = common::is_thorough(tier);
+    let mut hist = 0;
+    let mut faults = 0;
+    for ft in [fatfs::FatType::Fat12, fatfs::FatType::Fat32] {
+        let cfg = harness::vol::tiny_with(ft, 8, 16);
+        // (FAT32: one level less for the fault enumeration - every allocation there issues far more device calls)
+        let fd = if ft == fatfs::FatType::Fat32 { fault_depth.saturating_sub(1) } else { fault_depth };
+        let s = stdio::explore(&cfg, if th { 4 } else { 3 }, fd, &|sig| keep.iter().any(|k| sig.starts_with(k)));
+        hist += s.histories;
+        faults += s.fault_runs;
+        for (sig, msg) in s.viols {
+            rep.add(common::violation(prop, &format!("{prop}/{sig}"), &msg, &format!("{}-std-io", cfg.name)), serde_json::json!({"check": prop, "std-io": msg}));
+        }
+    }
+    if let Some(o) = rep.coverage.as_object_mut() {
+        o.insert("std_io_facade_histories".into(), hist.into());
+        o.insert("std_io_facade_fault_runs".into(), faults.into());
+        o.insert(
+            "std_io_facade".into(),
+            "every history of 1..=3 (thorough 4) std::io trait calls (write, write_all, read, read_exact, read_to_end, seek Start/Current/End, flush) on one file through StdIoWrapper over a std::io storage, against a byte-vector model; content re-read after remount".into(),
+        );
+    }
 }
 
 fn explorer(prop: &str, tier: &str, replay: Option<String>, specs: Vec<common::ExpSpec>, checker: &dyn Checker) -> i32 {
